@@ -131,7 +131,9 @@ func (d *DistributedEnforcer) ClearPolicySelf(shouldPersist func() bool) error {
 		}
 	}
 
+	d.invalidateMatcherMap()
 	d.model.ClearPolicy()
+	d.clearRoleLinks()
 
 	return nil
 }
